@@ -114,7 +114,7 @@ def _runner_main(jobs_path: str, out_path: str) -> None:
                 if cfg['storage'] and setup_error is not None:
                     raise setup_error
                 res = lab.run_tasks(req, bust_cache=cfg['bust'], disable_progress=not job.get('displays', False),
-                                    disable_top=not job.get('displays', False))
+                                    disable_top=not job.get('displays', False), **(job.get('top_options') or {}))
                 outcome = {'kind': 'return', 'exc': '', 'cause': '', 'keys': [t.tid for t in res.keys()],
                            'vals': list(res.values())}
             except BaseException as ex:   # noqa
